@@ -329,4 +329,121 @@ def f11Run : State Lru.State × List Ret :=
 
 theorem C17_fails_F11 : residentCost f11Run.1 = 5 ∧ f11Run.1.met.currentCost = 5 ∧ cfgLru3.capacity = 3 := by decide
 
+/-- every shard is as `build_from_snapshot` left it: nothing queued, fresh LRU policy, no wheel -/
+def FreshLru (s : State Lru.State) : Prop :=
+  ∀ a, a ∈ s.aux → a.events = [] ∧ a.batch = [] ∧ a.policy = Lru.init ∧ a.wheel = none
+
+theorem mem_modAt {α} (f : α → α) (a : α) : ∀ (l : List α) (i : Nat), a ∈ modAt l i f → a ∈ l ∨ ∃ b, b ∈ l ∧ a = f b := by
+  intro l
+  induction l with
+  | nil => intro i h; simp [modAt] at h
+  | cons x rest ih =>
+    intro i h
+    cases i with
+    | zero =>
+      simp only [modAt, List.mem_cons] at h
+      rcases h with h | h
+      · exact Or.inr ⟨x, List.mem_cons_self .., h⟩
+      · exact Or.inl (List.mem_cons_of_mem _ h)
+    | succ i =>
+      simp only [modAt, List.mem_cons] at h
+      rcases h with h | h
+      · exact Or.inl (h ▸ List.mem_cons_self ..)
+      · rcases ih i h with h | ⟨b, hb, hab⟩
+        · exact Or.inl (List.mem_cons_of_mem _ h)
+        · exact Or.inr ⟨b, List.mem_cons_of_mem _ hb, hab⟩
+
+theorem FreshLru.modAux {s : State Lru.State} (h : FreshLru s) (i : Nat) (f : Aux Lru.State → Aux Lru.State)
+    (hf : ∀ b, (b.events = [] ∧ b.batch = [] ∧ b.policy = Lru.init ∧ b.wheel = none) →
+      ((f b).events = [] ∧ (f b).batch = [] ∧ (f b).policy = Lru.init ∧ (f b).wheel = none)) :
+    FreshLru (s.modAux i f) := by
+  intro a ha
+  rcases mem_modAt f a s.aux i ha with h1 | ⟨b, hb, rfl⟩
+  · exact h a h1
+  · exact hf b (h b hb)
+
+theorem performShard_fresh (cfg : Cfg) (o : Oracle) (s : State Lru.State) (i limit : Nat) (h : FreshLru s) :
+    (s.performShard cfg lruOps o i limit).map = s.map ∧ FreshLru (s.performShard cfg lruOps o i limit) := by
+  unfold State.performShard
+  cases ha : s.aux[i]? with
+  | none => exact ⟨rfl, h⟩
+  | some a =>
+    obtain ⟨he, hb, _, _⟩ := h a (List.mem_of_getElem? ha)
+    have hfm : ∀ l : List Nat, l.filterMap (fun _ => (none : Option (Nat × Nat))) = [] := by
+      intro l; induction l <;> simp [*]
+    simp only [he, hb, List.take_nil, List.map_nil, List.find?_nil, hfm, List.filter_nil,
+      State.applyAccesses, State.applyWrites]
+    exact ⟨rfl, h.modAux i _ (fun b hb => ⟨by simp [hb.1], rfl, hb.2.2.1, hb.2.2.2⟩)⟩
+
+theorem cleanupTtl_fresh (cfg : Cfg) (o : Oracle) (s : State Lru.State) (i : Nat) (h : FreshLru s) :
+    s.cleanupTtl cfg lruOps o i = s := by
+  unfold State.cleanupTtl
+  cases ha : s.aux[i]? with
+  | none => rfl
+  | some a =>
+    have := (h a (List.mem_of_getElem? ha)).2.2.2
+    simp [this]
+
+theorem cleanupTti_none (cfg : Cfg) (o : Oracle) (s : State Lru.State) (i : Nat) (htti : cfg.tti = none) :
+    s.cleanupTti cfg lruOps o i = s := by
+  unfold State.cleanupTti
+  rw [htti]
+
+theorem cleanupCapacity_fresh (cfg : Cfg) (o : Oracle) (s : State Lru.State) (i : Nat) (h : FreshLru s) :
+    (s.cleanupCapacity cfg lruOps o i).map = s.map ∧ FreshLru (s.cleanupCapacity cfg lruOps o i) := by
+  unfold State.cleanupCapacity
+  dsimp only
+  split
+  · exact ⟨rfl, h⟩
+  · unfold State.polEvict
+    cases ha : s.aux[i]? with
+    | none => exact ⟨rfl, h⟩
+    | some a =>
+      have hp : a.policy = Lru.init := (h a (List.mem_of_getElem? ha)).2.2.1
+      simp only [lruOps, hp, lru_evict_init, List.isEmpty_nil, if_true]
+      exact ⟨rfl, h.modAux i _ (fun b hb => ⟨hb.1, hb.2.1, rfl, hb.2.2.2⟩)⟩
+
+theorem runMaintenance_fresh (cfg : Cfg) (o : Oracle) (htti : cfg.tti = none) :
+    ∀ (l : List Nat) (s : State Lru.State), FreshLru s →
+      (l.foldl (fun s i =>
+        let s := s.performShard cfg lruOps o i cfg.drainLimit
+        let s := s.cleanupTtl cfg lruOps o i
+        let s := s.cleanupTti cfg lruOps o i
+        s.cleanupCapacity cfg lruOps o i) s).map = s.map := by
+  intro l
+  induction l with
+  | nil => intro s _; rfl
+  | cons i rest ih =>
+    intro s h
+    rw [List.foldl_cons]
+    dsimp only
+    obtain ⟨hm1, hf1⟩ := performShard_fresh cfg o s i cfg.drainLimit h
+    rw [cleanupTtl_fresh cfg o _ i hf1, cleanupTti_none cfg o _ i htti]
+    obtain ⟨hm2, hf2⟩ := cleanupCapacity_fresh cfg o _ i hf1
+    rw [ih _ hf2, hm2, hm1]
+
+theorem restore_freshLru (cfg : Cfg) (now : Nat) (sn : Snapshot) (httl : cfg.ttl = none) (htti : cfg.tti = none) :
+    FreshLru (State.restore cfg Lru.init now sn) := by
+  intro a ha
+  have h' : a ∈ List.replicate cfg.nshards
+      ({ wheel := if cfg.hasWheel then some (Wheel.new cfg.wheelSize cfg.tickDur) else none, policy := Lru.init } : Aux Lru.State) := ha
+  rw [List.mem_replicate] at h'
+  rw [h'.2]
+  simp [Cfg.hasWheel, httl, htti]
+
+/-- F11, general form for LRU on a cache without TTL / TTI: a whole `run_maintenance` pass on a
+    freshly restored cache removes nothing from the map — for every snapshot, capacity, shard
+    count and oracle, however far over capacity the restored entries are.
+    `_partial`: caches with a TTL or a TTI are excluded (hypotheses `cfg.ttl = none`,
+    `cfg.tti = none`); there the expiry passes of the same call may legitimately remove restored
+    entries whose deadline has passed, so "removes nothing" is not the right statement. -/
+theorem C17_restore_maintenance_removes_nothing_partial (cfg : Cfg) (o : Oracle) (now : Nat) (sn : Snapshot)
+    (httl : cfg.ttl = none) (htti : cfg.tti = none) :
+    ((State.restore cfg Lru.init now sn).runMaintenance cfg lruOps o).map = (State.restore cfg Lru.init now sn).map := by
+  unfold State.runMaintenance
+  exact runMaintenance_fresh cfg o htti _ _ (restore_freshLru cfg now sn httl htti)
+
+-- non-vacuity: the F11 configuration has neither TTL nor TTI, and its restored cache is over capacity
+example : cfgLru3.ttl = none ∧ cfgLru3.tti = none := by decide
+
 end Fv.Props.C17
